@@ -4,7 +4,7 @@ Explicit-state BFS to closure over the product (implementation registers,
 reference list). Every transition elaborates the real queue, replays the
 history and applies one letter (enq offer, msg, deq offer).
 """
-from pymtl3 import Component, update_once
+from pymtl3 import Component, update_once, U
 
 from vt import fifo
 from vt.acc import Acc, MachineryError
@@ -41,7 +41,9 @@ CATALOG = [
   ("D.Normal", "pymtl3.stdlib.stream.queues", "NormalQueueRTL", "D", "normal", (1, 2, 3, 4), "T,n"),
   ("D.Pipe", "pymtl3.stdlib.stream.queues", "PipeQueueRTL", "D", "pipe", (1, 2, 3, 4), "T,n"),
   ("D.Bypass", "pymtl3.stdlib.stream.queues", "BypassQueueRTL", "D", "bypass", (1, 2, 3, 4), "T,n"),
-  ("L.Normal", "pymtl3.stdlib.queues.cl_queues", "NormalQueueCL", "L", "normal", (1, 2, 3, 4), "n"),
+  # the library leaves the callers of enq and deq of a normal CL queue unordered: both orders are explored
+  ("L.Normal/enq-first", "pymtl3.stdlib.queues.cl_queues", "NormalQueueCL", "L", "normal", (1, 2, 3, 4), "n:enq<deq"),
+  ("L.Normal/deq-first", "pymtl3.stdlib.queues.cl_queues", "NormalQueueCL", "L", "normal", (1, 2, 3, 4), "n:deq<enq"),
   ("L.Pipe", "pymtl3.stdlib.queues.cl_queues", "PipeQueueCL", "L", "pipe", (1, 2, 3, 4), "n"),
   ("L.Bypass", "pymtl3.stdlib.queues.cl_queues", "BypassQueueCL", "L", "bypass", (1, 2, 3, 4), "n"),
 ]
@@ -49,7 +51,7 @@ BYKEY = {c[0]: c for c in CATALOG}
 
 
 class CLHarness(Component):
-  def construct(s, Q, n):
+  def construct(s, Q, n, order=None):
     s.dut = Q(n)
     s.want_e = 0
     s.want_d = 0
@@ -71,6 +73,9 @@ class CLHarness(Component):
       if s.want_d and r:
         s.log["deq_msg"] = s.dut.deq()
         s.log["deq_fire"] = 1
+
+    if order == "enq<deq": s.add_constraints(U(up_enq) < U(up_deq))
+    elif order == "deq<enq": s.add_constraints(U(up_deq) < U(up_enq))
 
 
 def entry_type(tname):
@@ -98,7 +103,7 @@ class Impl:
     self.fam, self.kind, self.cap = fam, kind, cap
     self.T = T = entry_type(tname)
     if fam == "L":
-      top = CLHarness(Q, cap)
+      top = CLHarness(Q, cap, style.split(":")[1] if ":" in style else None)
     elif style == "T,n": top = Q(T, cap)
     elif style == "n,T": top = Q(cap, T)
     else: top = Q(T)
